@@ -517,6 +517,9 @@ func msgs(l z.ZogIssueList) []string {
 }
 
 func (c10) RunCase(c *core.Ctx) {
+	if c.Case%97 == 23 && !w10(c, "C10") {
+		return
+	}
 	if c.Case%20 == 6 && !c10NonTestPaths(c) {
 		return
 	}
